@@ -12,6 +12,7 @@
     - [_process_child_attrs] works on copies                         -> Model.noexc_pre
     - a subclass gets its own registry of variants                  -> Model.variants_of / append_field
     - a customized class keeps its __extends__                      -> Model.customize_plain
+    - a base class with members of its own, or itself derived, becomes __extends__ -> Model.real_base
     - [_get_flat_type_info]: parent first                           -> Model.flat_f
     - [append_field]/[insert_field]: the class, then its variants   -> Model.append_field / insert_field
     - [Decimal._s_customize]: max_str_len = requested total_digits + 2  -> Model.decimal_pre
@@ -73,6 +74,7 @@ Lemma source_shape :
   s_customize_special_keys = expected_special_keys /\
   s_customize_unbounded_aliases = expected_unbounded /\
   child_attrs_copied = true /\ subclass_resets_variants = true /\ customized_keeps_extends = true /\
+  memberless_base_kept = true /\
   flat_parent_first = true /\ evolution_propagates = true /\
   decimal_msl_from_request = true /\ decimal_msl_add = 2 /\
   odict_setitem_new_only = true /\ odict_insert_moves = true.
